@@ -114,6 +114,8 @@ func (e *Exec) initGhosts(w *World, st *BState) {
 	errT := types.Universe.Lookup("error").Type()
 	st.ghost["cbErr"] = zeroValue(errT)
 	ghostTypes["cbErr"] = errT
+	st.ghost["$produceFailed"] = boolSV(tFalse)
+	ghostTypes["$produceFailed"] = types.Typ[types.Bool]
 	st.ghost["$outAtMeta"] = intSV(intLit(0))
 	ghostTypes["$outAtMeta"] = types.Typ[types.Int]
 	st.ghost["runErr"] = zeroValue(errT)
